@@ -2156,7 +2156,9 @@ func (cs Conditions) inlineTagFilter(tags map[string]TagDetails) ConditionsSet {
 		}
 		origLen := len(csNew)
 		for range tagConditionsSet {
-			csNew = append(csNew, csNew[:origLen]...)
+			for _, c := range csNew[:origLen] {
+				csNew = append(csNew, append(Conditions(nil), c...))
+			}
 		}
 		a := c.Accept & certain
 		for i := range csNew {
